@@ -24,14 +24,15 @@ RULE = ('Part 1, complete grid: scripts of one session shape {read-only, optimis
         'IntegrityError before every execute, and the first of these also chained with: the next rollback fails (before / after), '
         'the next close fails, rollback and close both fail, the very next call of any kind fails too, and (script with a second '
         'session) the next connect fails. Part 2, generated: 2-3 threads x 1-2 sessions of those shapes under a deterministic '
-        'hand-off (one runnable thread at a time; switches only between operations, between sessions and when a thread would '
-        'wait for a provider lock; choices are a generated list of ints), and for each generated (actors, schedule) EVERY call '
+        'hand-off (one runnable thread at a time; switches only between operations, between sessions, inside every DB-API '
+        'commit()/rollback() call (entered by Pony, not yet performed) and when a thread would wait for a provider lock; choices are a generated list of ints), and for each generated (actors, schedule) EVERY call '
         'index k is failed once. One evaluation = one (script or actors+schedule, fault plan). After each session end: neither '
         'provider lock is held by the ending thread (single-thread part: by anybody) and no lock was released by a non-holder; '
         'every connection the layer created in that thread is the pool\'s current connection and open, or was closed exactly '
         'once, and none was used after close (for every Database the script uses); a connection that stays pooled has foreign '
         'key enforcement in its initial state (PRAGMA foreign_keys = 1 read through the raw connection), and a following plain '
-        'session that inserts a dangling reference through db.execute gets IntegrityError. At the end a write session over all '
+        'session that inserts a dangling reference through db.execute gets IntegrityError. A session into which no fault was injected never fails with '
+        'SQLite\'s "database is locked" (another session of the process had not finished its transaction). At the end a write session over all '
         'databases in the same thread and one in a new thread must finish '
         'without error and without waiting for a provider lock (the instrumented lock raises instead of waiting, so a hang is '
         'never judged by time). Non-trivial = the first fault was injected while provider.transaction_lock was held; distinct '
@@ -81,7 +82,15 @@ def _memory_ddl_failure_leaves_fk_checks_off(case, message):
             and 'foreign key enforcement switched off' in message and 'its initialisation was interrupted' not in message)
 
 
-EXCLUSIONS = {'exit_commit_leaves_caches_unreleased': _exit_commit_leaves_caches_unreleased,
+def _failed_commit_releases_lock_before_rollback(case, message):
+    """open finding C19-failed-commit-releases-lock-before-rollback: when the DB-API commit() fails, SQLiteProvider.commit gives
+    the provider transaction lock back in its finally clause, but the SQLite transaction is still open until SessionCache.commit
+    rolls it back afterwards; a write session of another thread that gets the lock in between fails with 'database is locked'."""
+    return 'locked' in message and 'gave the provider lock back before it had rolled its transaction back' in message
+
+
+EXCLUSIONS = {'failed_commit_releases_lock_before_rollback': _failed_commit_releases_lock_before_rollback,
+              'exit_commit_leaves_caches_unreleased': _exit_commit_leaves_caches_unreleased,
               'failed_connect_pools_half_initialised_connection': _failed_connect_pools_half_initialised_connection,
               'memory_ddl_failure_leaves_fk_checks_off': _memory_ddl_failure_leaves_fk_checks_off}
 
